@@ -519,12 +519,16 @@ def rule_csv(ctx):
                 lp = enclosing(c, (ast.For,))
                 a0 = c.args[0]
                 if (isinstance(a0, ast.Name) and lp is not None and isinstance(lp.target, ast.Name) and lp.target.id == a0.id
-                        and isinstance(lp.iter, ast.Call) and isinstance(lp.iter.func, ast.Name)):
-                    g = fi.module.functions.get(lp.iter.func.id)
+                        and isinstance(lp.iter, ast.Call) and (isinstance(lp.iter.func, ast.Name) or (
+                            isinstance(lp.iter.func, ast.Attribute) and isinstance(lp.iter.func.value, ast.Name) and lp.iter.func.value.id == "self"))):
+                    if isinstance(lp.iter.func, ast.Name):
+                        g = fi.module.functions.get(lp.iter.func.id)
+                    else:
+                        g = fi.cls.find_method(lp.iter.func.attr) if fi.cls is not None else None
                     if g is None or not any(isinstance(y, ast.Yield) for y in ast.walk(g.node)):
                         undecided.append("rows come from `%s`" % unparse(lp.iter))
                         continue
-                    gp = g.params()
+                    gp = [x_ for x_ in g.params() if not (g.cls is not None and x_ == "self")]
                     ren = {}
                     for pn, av in zip(gp, lp.iter.args):
                         if isinstance(av, ast.Name):
@@ -859,3 +863,54 @@ def rule_table_literals(ctx):
               "spelling is recognised any more, and a conflict involving it goes unnoticed" % ", ".join("%s %s (line %d)" % x for x in bad))
     # every spelling selects the branch of its own key (catches entries that no longer contain their unit code)
     ctx.floor("EX.TABLE-LITERALS", 1)
+
+
+def rule_fresh_document(ctx):
+    """EX.FRESH-DOC: every export builds its document from containers created in the call.  A shallow copy (`dict(T)`, `T.copy()`,
+    `copy.copy(T)`, `list(T)`) of a module- or class-level template that itself contains mutable containers shares those inner
+    containers between all exports: what one to_json() call put there shows up in the next."""
+    p = ctx.p
+    templates = {}
+    for mn, mod in p.modules.items():
+        for nm, vals in mod.globals.items():
+            for v in vals:
+                if isinstance(v, (ast.Dict, ast.List)) and any(isinstance(x, (ast.Dict, ast.List, ast.Set)) for e in ast.iter_child_nodes(v)
+                                                               for x in ([e] if isinstance(e, (ast.Dict, ast.List, ast.Set)) else [])):
+                    templates[nm] = "%s.%s" % (mn, nm)
+    for cq, ci in p.classes.items():
+        for st in ci.node.body:
+            if isinstance(st, ast.Assign) and isinstance(st.value, (ast.Dict, ast.List)) and any(
+                    isinstance(e, (ast.Dict, ast.List, ast.Set)) for e in ast.iter_child_nodes(st.value)):
+                for t in st.targets:
+                    if isinstance(t, ast.Name):
+                        templates[t.id] = "%s.%s" % (cq, t.id)
+    n = 0
+    bad = []
+    for q, fi in sorted(p.functions.items()):
+        if isinstance(fi.node, ast.Lambda):
+            continue
+        for c in walk_shallow(fi.node):
+            if not isinstance(c, ast.Call):
+                continue
+            src = None
+            f = c.func
+            if isinstance(f, ast.Name) and f.id in ("dict", "list") and len(c.args) == 1:
+                src = c.args[0]
+            elif isinstance(f, ast.Attribute) and f.attr == "copy" and not c.args:
+                src = f.value
+            elif isinstance(f, ast.Attribute) and f.attr == "copy" and isinstance(f.value, ast.Name) and f.value.id == "copy" and len(c.args) == 1:
+                src = c.args[0]
+            if src is None:
+                continue
+            nm = src.id if isinstance(src, ast.Name) else (src.attr if isinstance(src, ast.Attribute) else None)
+            if nm in templates:
+                n += 1
+                bad.append((fi, c, templates[nm]))
+    site = "lasio#template-copies"
+    if bad:
+        fi, c, t = bad[0]
+        ctx.bad("EX.FRESH-DOC", site, fi, c, "`%s` in %s is a shallow copy of the template %s, whose inner containers are then shared by every "
+                "call: entries written during one export are still there in the next" % (unparse(c), fi.qual, t))
+    else:
+        ctx.ok("EX.FRESH-DOC", site, None, 0, "no shallow copy of a shared nested template (%d templates with inner containers)" % len(templates),
+               nontrivial=False)
